@@ -11,7 +11,7 @@ from fractions import Fraction
 import numpy as np
 from . import common
 
-THEOREM_FILES = ['NumqiProps/C18.lean']
+THEOREM_FILES = ['NumqiProps/C18.lean', 'NumqiProps/C18Roots.lean']
 LEVEL = 'proof'
 RULE = ('ops: every public constructor of numqi.state on parameter grids that contain both documented end points, the '
         'separability thresholds 1/d and 1/(d+1), random interior points and out-of-range values (assert stream), for several d; '
@@ -145,14 +145,32 @@ def upb_label(kind, args):
 
 
 # ---------------------------------------------------------------------------------------------------------------------
+def roots_tie(ctx):
+    """exact tie of the roots-of-unity UPB families (gentiles1/2, quadres) against load_upb (model by the C07 builder, harness/c18roots.py)"""
+    from . import c18roots
+    ops = c18roots.gen_ops(ctx.quick())
+    impl = []
+    for op in ops:
+        try:
+            impl.append(c18roots.impl_op(op))
+        except Exception as exc:
+            impl.append('error:' + type(exc).__name__)
+    model = common.run_model(ops)
+    common.compare(ctx, ops, impl, model, key=lambda op: 'rootsupb-' + op.split(' ')[2])
+
+
 def correspondence(ctx):
+    roots_tie(ctx)
+    _correspondence_main(ctx)
+
+
+def _correspondence_main(ctx):
     import numqi
     S = numqi.state
     rng = ctx.rng
     # full statements kept as `def … .Statement : Prop` (not proved) are listed by name in the evidence
     ctx.extra['open_statements'] = list(OPEN_STATEMENTS)
     ctx.extra['clauses_without_lean_counterpart'] = [
-        'orthonormality of load_upb kinds quadres / gentiles1 / gentiles2 (probe only, all tied sizes)',
         'unextendibility of every UPB (literature)',
         'closed-form REE/EOF/GME equal the true (optimised) measures: tied to the value formulas of the model, probed against get_eof_2qubit/get_gme_2qubit (d=2), get_ppt_ree (d=2,3(,4)), pure end point (d<=8)',
         'Chebyshev basis2/basis3 phases, projector list, with_computational_basis (tied/probed)']
